@@ -223,6 +223,13 @@ func (x *Exec) verifyRoot() {
 			v = Val{S: x.S.Const("p_"+sanitize(p.Name())+"_", x.te.Sort(p.Type())), T: p.Type()}
 			x.wfAssume(st, v)
 		}
+		if pt, ok := p.Type().Underlying().(*types.Pointer); ok && v.S != "" {
+			// the pointee of a non-nil pointer parameter is a well-formed value
+			if _, isArr := pt.Elem().Underlying().(*types.Array); !isArr {
+				pv := x.heapLoad(st, pt.Elem(), "(p_reg "+v.S+")", "(p_idx "+v.S+")")
+				x.assume(st, Imp("(not (= (p_reg "+v.S+") 0))", x.wf(pv, pt.Elem(), st, 0)))
+			}
+		}
 		fr.env[p] = v
 		x.rootArgs[p.Name()] = v
 		x.inputs = append(x.inputs, InputVar{Name: p.Name(), Term: v.S, Type: shortTypeName(p.Type())})
